@@ -227,7 +227,8 @@ def units(tier, seed=0):
                 u['cdefs'] = ['VF_BLOCK_K=1'] + (['VF_TRACKED=1'] if tracked else []) + (['VF_TRIVIAL_DTOR=1'] if tracked and all(q.elem != 't' for q in L.params) else [])
                 if extra.get('cdefs_nvar'): u['cdefs'].append('VF_WINDOWS=%d' % min(4, 2 * L.nvar))
                 u['cdefs'] += extra.get('cdefs', [])
-                if key == 'transform':
+                if key == 'transform' or extra.get('noshape'):
+                    if extra.get('noshape'): u['kind'] = 'proof'
                     us.append(u)
                     continue
                 shapes = [(c, b, c, b) for c, b in VEC_SHAPES[tier]] if not tracked else [(2, 48, 2, 48)]
